@@ -42,7 +42,7 @@ ASSUMPTIONS = [
     "bool for revision: ValueError or stored as 1 are both accepted, anything else is a violation",
     "default-part values are those of CorePropertiesPart.default (title, last_modified_by, revision, modified ~ now)",
 ]
-WATCHDOG_S = {"quick": 300, "thorough": 1500}
+WATCHDOG_S = {"quick": 600, "thorough": 3600}
 
 CP = "http://schemas.openxmlformats.org/package/2006/metadata/core-properties"
 DC = "http://purl.org/dc/elements/1.1/"
@@ -386,11 +386,11 @@ def judge(acc, st, name, got, phase, wit):
     if name not in st.assigned:
         key = "unassigned-changed:" + k
     elif k == "string":
-        key = "string-roundtrip:" + cls.split(":")[-1]
+        key = "string-roundtrip:" + cls.split(":", 1)[-1]
     elif k == "revision":
         key = "revision-accepts:bool" if raw is True else "revision-roundtrip"
     else:
-        key = "datetime-year-unpadded" if raw.year < 1000 and got is None else "datetime-roundtrip:" + cls.split(":")[-1]
+        key = "datetime-year-unpadded" if raw.year < 1000 and got is None else "datetime-roundtrip:" + cls.split(":", 1)[-1]
     acc.violation(key, "%s: assigned %r, expected %r, read %r %s" % (name, raw, want, got, phase.replace("_", " ")), wit)
     st.model[name] = got  # resynchronise: one report per cause
     st.tainted.add(name)
@@ -594,10 +594,10 @@ def w3c_cases(tier, seed):
 # ---------------------------------------------------------------- units
 def plan(tier, seed):
     q = tier == "quick"
-    u = [{"kind": "strings", "shard": i, "rounds": 40 if q else 2500} for i in range(16)]
-    u += [{"kind": "reject", "shard": i} for i in range(2)] + [{"kind": "dates", "shard": i, "of": 4, "random": 60 if q else 4000} for i in range(4)]
+    u = [{"kind": "strings", "shard": i, "rounds": 80 if q else 3000} for i in range(16)]
+    u += [{"kind": "reject", "shard": i} for i in range(2)] + [{"kind": "dates", "shard": i, "of": 4, "random": 120 if q else 6000} for i in range(4)]
     u += [{"kind": "revision"}] + [{"kind": "w3cdtf", "shard": i, "of": 8} for i in range(8)] + [{"kind": "default", "corpus": 4 if q else 30}]
-    u += [{"kind": "history", "shard": i, "n": 25 if q else 1500} for i in range(16)]
+    u += [{"kind": "history", "shard": i, "n": 50 if q else 2000} for i in range(16)]
     u += [{"kind": "corpus", "shard": i, "of": 4} for i in range(4)] + [{"kind": "undocumented"}]
     return u
 
